@@ -31,6 +31,7 @@ static void set_str_attr(hid_t root, const char *name, const std::string &val) {
     if (H5Aexists(root, name) > 0) H5Adelete(root, name);
     hid_t ty = H5Tcopy(H5T_C_S1);
     H5Tset_size(ty, H5T_VARIABLE);
+    H5Tset_cset(ty, H5T_CSET_UTF8);   // as the library writes its strings; an ASCII attribute is read differently
     hid_t sp = H5Screate(H5S_SCALAR);
     hid_t at = H5Acreate2(root, name, ty, sp, H5P_DEFAULT, H5P_DEFAULT);
     const char *p = val.c_str();
